@@ -10,7 +10,7 @@ NOTES = {
     "C03": "fixed: row_norm2sqr scaling index, BCSR row_norm2 sqrt; known: entry-free CSR / BCSR operands",
     "C04": "fixed: sparse min/max scan, SVB realloc write, blocked<->flat convert of empty vectors; known: min/max with an empty leaf",
     "C05": "mtx reader empty rows, mtx writer / operator== entry-free, exp size 0, sv mtx size 0, 16 MiB stack buffer, SaddlePointMatrix checkpoint size",
-    "C06": "fixed: UnitFilterBlocked ctor; known: filter_mat on entry-free matrices",
+    "C06": "fixed: UnitFilterBlocked ctor, five convert / clone members that did not compile (FilterChain, FilterSequence, PowerFilter, MeanFilterBlocked, UnitFilterBlocked); known: filter_mat on entry-free matrices",
     "C07": "fixed: RGCR done_numeric keeps recycled directions, multigrid NaN step; known: 11 solver defect classes (see 12.3)",
     "C08": "BCSR SSOR scaling, block ILU multiplication side, additive Vanka NaN for DOFs in no block",
     "C09": "NaN step length for a vanishing correction",
